@@ -27,7 +27,11 @@ def sync_repo(repo, dest, target_dir=None):
     older than the artifacts built from the patched text and the stale artifacts would be reused. So the content hash of every
     source file is remembered next to the build output; any file whose content differs from what the last build saw is touched."""
     os.makedirs(dest, exist_ok=True)
-    r = subprocess.run(["rsync", "-a", "--delete", "--exclude", "/target", "--exclude", ".git", repo.rstrip("/") + "/",
+    # NOT `-a`: with -t rsync would set a touched file BACK to the (old) source mtime at the next sync, and an artifact of ANOTHER
+    # feature variant of that crate, built from the patched text and not rebuilt since, would look fresh again (seen once: C10-12's
+    # swimos_recon). With --checksum and without -t a file of the copy is rewritten -- and gets the current time -- exactly when its
+    # content changes, and never goes back in time: every artifact older than the last content change is stale for cargo.
+    r = subprocess.run(["rsync", "-rlpgoD", "--checksum", "--delete", "--exclude", "/target", "--exclude", ".git", repo.rstrip("/") + "/",
                         dest + "/"], capture_output=True, text=True)
     if r.returncode != 0:
         raise Undecided("rsync failed: " + r.stderr[-300:])
